@@ -88,6 +88,13 @@ class C02(Prop):
                    "route": rng.choice(["ctor", "add", "extend", "append", "iadd"]), "close": rng.random() < 0.3,
                    "submove": rng.random() < 0.5, "nostart": rng.random() < 0.3}
         for i in range(n // 4):
+            if i % 5 == 4:
+                # axis-aligned scale + translation (what Rect/Circle/Ellipse.reify fold into the shape's own numbers), both signs
+                sx = rng.choice([0.5, 2.0, 3.0, 1.25]) * rng.choice([1, 1, 1, -1])
+                sy = rng.choice([0.25, 1.5, 4.0, 0.8]) * rng.choice([1, 1, 1, -1])
+                M = [sx, 0.0, 0.0, sy, round(rng.uniform(-40, 40), 2), round(rng.uniform(-40, 40), 2)]
+                yield {"k": "shape", "shape": rand_shape(rng), "M": M, "pre": None}
+                continue
             yield {"k": "shape", "shape": rand_shape(rng), "M": gen.matrix_invertible(rng),
                    "pre": gen.matrix_invertible(rng) if rng.random() < 0.3 else None}
 
@@ -187,7 +194,9 @@ class C02(Prop):
                 reif = Path(sh) * M
                 reif.reify()
                 p3 = [geo.sample(x, geo.TS[:5]) for x in reif]
-                return {"p0": p0, "p1": p1, "p2": p2, "p3": p3, "kinds": [geo.kind(x) for x in base],
+                # the shape's own reify(): abs(shape*M) keeps what it cannot fold into its numbers in a residual matrix
+                p4 = [geo.sample(x, geo.TS[:5]) for x in abs(Path(abs(sh * M)))]
+                return {"p0": p0, "p1": p1, "p2": p2, "p3": p3, "p4": p4, "kinds": [geo.kind(x) for x in base],
                         "kinds2": [geo.kind(x) for x in segs], "scale": max([1.0] + [geo.seg_scale(x) for x in base])}
         except Exception as e:
             import traceback
@@ -269,7 +278,8 @@ class C02(Prop):
         elif k == "shape":
             t1 = tol(obs["scale"], M, True)
             want = [[M_apply(M, p) for p in seg] for seg in obs["p0"]]
-            for name, what in (("p1", "abs(Path(shape)*M)"), ("p3", "Path(shape)*M reify"), ("p2", "(shape*M).segments()")):
+            for name, what in (("p1", "abs(Path(shape)*M)"), ("p3", "Path(shape)*M reify"), ("p4", "abs(shape*M)"),
+                               ("p2", "(shape*M).segments()")):
                 got = obs[name]
                 bad = None
                 if len(got) != len(want):
